@@ -108,14 +108,17 @@ string pic_diff(const Pic& got, const Pic& want, bool compare_alpha) {
 
 Pic gen_pic() {
   Pic p;
-  // all residues of width mod 4, biased small
-  switch (choose(4, "pic.w.kind")) {
+  // all residues of width mod 4, biased small; one case in eight sits in the 61..64 corner so that the
+  // largest pictures (where buffer-size estimates are tightest) are actually reached
+  bool corner = choose(8, "pic.corner") == 7;
+  switch (corner ? 2 : choose(4, "pic.w.kind")) {
     case 0: p.w = 1 + choose(8, "pic.w.small"); break;
     case 1: p.w = 1 + choose(64, "pic.w.any"); break;
     case 2: p.w = 61 + choose(4, "pic.w.max"); break;
     default: p.w = 1 + choose(16, "pic.w.mid"); break;
   }
-  switch (choose(3, "pic.h.kind")) {
+  switch (corner ? 3 : choose(3, "pic.h.kind")) {
+    case 3: p.h = 61 + choose(4, "pic.h.max"); break;
     case 0: p.h = 1 + choose(4, "pic.h.small"); break;
     case 1: p.h = 1 + choose(64, "pic.h.any"); break;
     default: p.h = 1 + choose(12, "pic.h.mid"); break;
@@ -905,6 +908,7 @@ static void run() {
   }
   reference = clean.pic;
   if (src.w % 4) VS_PROBE("width_not_multiple_of_4");
+  if (src.w == 64 && src.h == 64) VS_PROBE("largest_picture_64x64");
   if (enc.kind.find("GRAYSCALE") != string::npos || enc.kind == "P5") VS_PROBE("grayscale_input");
   if (enc.kind.find("BITFIELDS") != string::npos) VS_PROBE("bmp_bitfields_input");
   if (enc.kind.find("top-down") != string::npos) VS_PROBE("bmp_top_down_input");
@@ -1048,7 +1052,7 @@ int main(int argc, char** argv) {
       {"glibc stdio, zlib", "real"},
       {"disk / file", "stub: simulated inode behind fopencookie (vsim/vfs.cc): durable prefix, scripted read sizes and EIO, capacity (full disk), short writes"},
       {"PNG/BMP/PPM reference decoders and foreign-file encoders", "harness code in engines/sim_image.cc sharing no code with phosg"}};
-  e.expected_probes = {"independent_decode_checked", "width_not_multiple_of_4", "grayscale_input", "bmp_bitfields_input", "bmp_top_down_input", "torn_every_prefix_of_a_file", "save_hit_full_disk", "saved_by_filename", "loaded_by_filename"};
+  e.expected_probes = {"independent_decode_checked", "width_not_multiple_of_4", "grayscale_input", "bmp_bitfields_input", "bmp_top_down_input", "torn_every_prefix_of_a_file", "save_hit_full_disk", "saved_by_filename", "loaded_by_filename", "largest_picture_64x64"};
   e.expected_faults = {"truncation", "EIO@read", "short_read", "short_write", "ENOSPC@capacity"};
   return driver_main(argc, argv, e);
 }
